@@ -742,7 +742,7 @@ class ViewsScenario(OpticsBase):
             'monolithic or 2-4 segment masks with overlapping bounding boxes, Tilt and first-order DispersiveTilt, fitted pupils), '
             'optionally a DFT propagation (random shape, prop_shape, oversampling, output mask, per-axis pixel scales), an Image plane and a '
             'propagation back; after every step field, intensity and insert(out, weight) are read, the accumulator having arbitrary shape '
-            'and prior content (F2), and pixel-scale-conflicting planes are injected (F5); distinct = distinct history digest; non-trivial '
+            'and prior content (F2), and pixel-scale-conflicting planes are injected (F5); further workload ingredients added by the seeded rounds are listed in MANIFEST.json and DESIGN.md section 15; distinct = distinct history digest; non-trivial '
             '= at least one dirty accumulator or refusal fired and at least one model comparison was made')
     state_measure = 'distinct (#fields class, overlap, clipping sides, plane kinds) signatures of the wavefronts reached'
     assumptions = ['the dense model places every documented Field (Wavefront.data[i].data/offset) with its origin sample floor(n/2) at '
@@ -1198,7 +1198,7 @@ class TiltScenario(OpticsBase):
             'than the output; scalar or per-axis output pixels; oversampling 1-3; prop_shape <= shape) imaged by the real propagate_dft '
             'through every tilt carrier -- Tilt planes split into 1-3 elements in seeded order (F7), Wavefront(tilt=), fit_tilt of the '
             'ramp-carrying OPD, fit/update/re-fit histories, first-order DispersiveTilt elements -- and compared with the eager twin (all '
-            'tilt as an OPD ramp in a monolithic pupil) on the samples both evaluate; distinct = distinct history digest; non-trivial = at '
+            'tilt as an OPD ramp in a monolithic pupil) on the samples both evaluate; further workload ingredients added by the seeded rounds are listed in MANIFEST.json and DESIGN.md section 15; distinct = distinct history digest; non-trivial = at '
             'least one reordering/re-fit/duplicate fired and at least one carrier comparison was made')
     state_measure = 'distinct (carrier, tilt magnitude class, pixel squareness, segmentation, window class) tuples'
     assumptions = ['the eager twin is imaged by the same propagate_dft (an error common to both sides is C02 territory)',
